@@ -654,4 +654,21 @@ def gen_cmp(tier, seed):
             cases.append("CMP z%d %s %d %d %d %d | %s | %s" % (cid, cfg["name"], cfg["kbits"], cfg["eps"], cfg["epsrec"], cfg["fdouble"],
                                                               " ".join(map(str, keys)), " ".join(map(str, qs))))
             stats["styles"][style] = stats["styles"].get(style, 0) + 1
+    # chunked construction (n >= 2^15, 16 threads): short segments at chunk ends, all keys after every seam queried
+    bigs = [c for c in cfgs if c["kbits"] >= 32 and 4 <= c["eps"] <= 8]
+    for j in range(2 if tier == "quick" else 12):
+        cfg = bigs[j % len(bigs)]
+        par = 16
+        n = (1 << 15) + rng.randint(0, 3000)
+        x, keys = 1000, []
+        for _ in range(n):
+            x += 1 + int(rng.lognormvariate(2.0, 1.5)); keys.append(x)
+        cs = n // par
+        qs = set(rng.sample(keys, 200) + [keys[0], keys[-1], keys[-1] + 1])
+        for i in range(1, par):
+            qs.update(keys[i * cs - 10: i * cs + 90])
+        cid += 1
+        cases.append("CMP zb%d %s %d %d %d %d %d | %s | %s" % (cid, cfg["name"], cfg["kbits"], cfg["eps"], cfg["epsrec"], cfg["fdouble"], par,
+                                                                " ".join(map(str, keys)), " ".join(map(str, sorted(qs)))))
+        stats["n"]["chunked"] = stats["n"].get("chunked", 0) + 1
     return cases, stats
